@@ -904,10 +904,15 @@ fn v2_lengths(cs: usize, full: bool) -> Vec<usize> {
 }
 
 fn fam_seipd2_raw(ctx: &mut Ctx) {
-    let max_co: u8 = ctx.qt(8, 16);
-    for &s in &AES {
-        for &a in &AEADS {
-            for co in 0..=max_co {
+    // every chunk-size octet in both tiers; the quick tier runs the large ones (512 KiB .. 4 MiB, the RFC's upper
+    // limit) with one cipher / AEAD pairing each, in rotation
+    let quick = ctx.quick();
+    for (si, &s) in AES.iter().enumerate() {
+        for (ai, &a) in AEADS.iter().enumerate() {
+            for co in 0..=16u8 {
+                if quick && co > 8 && (si * 3 + ai) != (co as usize % 9) {
+                    continue;
+                }
                 if !ctx.mine() {
                     continue;
                 }
